@@ -11,7 +11,7 @@ from ..terms import from_json, ident, to_json, walk, wellformed
 PROPERTY_ID = "C14"
 RULE = ("ASTs from the full-grammar generator (depth <= 3/4) x alias maps drawn from the tree: keys are "
         "identifiers, whole paths and owner prefixes that occur as field references, non-occurring keys, "
-        "and keys equal to a function name, a named-parameter name or a lambda variable used in the tree; "
+        "and keys equal to a function name, a named-parameter name or a lambda variable used in the tree (lambdas nest, re-binding a name or binding another one while the inner body still mentions the outer variable); "
         "targets are identifiers, paths and calls. Oracle: the harness's reference substitution on decoded "
         "terms; empty/non-matching map is the identity; the input tree is not modified; a fresh-name "
         "bijection followed by its inverse restores the input; caller-supplied lexer/parser give the same "
